@@ -487,6 +487,26 @@ func (c *Catalogue) Apply(s *Stmt, defDB string) error {
 		}
 		return nil
 
+	case VExchange:
+		a, b := c.qual(s.Renames[0][0], defDB), c.qual(s.Renames[0][1], defDB)
+		for _, q := range []QName{a, b} {
+			if c.Get(q.DB, q.Name) == nil {
+				return exc(60, "UNKNOWN_TABLE", "Table %s does not exist", q)
+			}
+		}
+		c.DBs[a.DB][a.Name], c.DBs[b.DB][b.Name] = c.DBs[b.DB][b.Name], c.DBs[a.DB][a.Name]
+		ra, oka := c.Data[a.String()]
+		rb, okb := c.Data[b.String()]
+		delete(c.Data, a.String())
+		delete(c.Data, b.String())
+		if okb {
+			c.Data[a.String()] = rb
+		}
+		if oka {
+			c.Data[b.String()] = ra
+		}
+		return nil
+
 	case VAlter:
 		q := c.qual(s.Name, defDB)
 		old := c.Get(q.DB, q.Name)
